@@ -185,13 +185,18 @@ func (m *Machine) pickWallet(t *rapid.T, label string) *wenv.WalletH {
 	return l[rapid.IntRange(0, len(l)-1).Draw(t, label)]
 }
 
+// otherSpelling: u is one of the second names a restart may have introduced for a mint the wallet already knows
+// (trailing dot, all upper case): the same mint, not another one.
+func otherSpelling(u string) bool {
+	host := strings.TrimPrefix(u, "http://")
+	return strings.HasSuffix(u, ".") || (host == strings.ToUpper(host) && host != strings.ToLower(host))
+}
+
 // trusted mints of a wallet (URLs)
 func trusted(h *wenv.WalletH) []string {
 	var l []string
 	for _, u := range h.W.TrustedMints() {
-		host := strings.TrimPrefix(u, "http://")
-		// skip the other spellings a restart may have introduced (the same mint): trailing dot, all upper case
-		if !strings.HasSuffix(u, ".") && !(host == strings.ToUpper(host) && host != strings.ToLower(host)) {
+		if !otherSpelling(u) {
 			l = append(l, u)
 		}
 	}
@@ -806,7 +811,7 @@ func (m *Machine) opRotate(t *rapid.T) bool {
 
 func (m *Machine) opRestart(t *rapid.T) bool {
 	h := m.pickWallet(t, "restart_wallet")
-	if rapid.IntRange(0, 3).Draw(t, "restart_under_other_spelling_first") == 0 {
+	if m.Opt.Owns["C19"] && rapid.IntRange(0, 3).Draw(t, "restart_under_other_spelling_first") == 0 {
 		// the wallet is started once with its mint's URL in another spelling (a trailing slash, as host names are
 		// case-insensitive; a configuration file or a token may have it) and then again as always: it has met its own mint under a second name
 		alias := h.Default + "." // the fully qualified form of the same host name
